@@ -13,6 +13,7 @@
  * mt_register_ext(); see mt_core.h.
  */
 #include "mt_core.h"
+#include <sys/time.h>
 
 /* ------------------------------------------------------------------ log */
 void mt_log(const char *fmt, ...)
@@ -1070,6 +1071,15 @@ static void *section_thread(void *arg)
 extern void __sanitizer_set_death_callback(void (*cb)(void));
 static void flush_on_death(void) { fflush(stdout); }
 
+static void verif_watchdog(int cpu_s, int wall_s)
+{
+	/* a library call that spins is cut by the CPU-time limit (independent of how loaded the machine is); one that sleeps for
+	 * ever by the generous wall-clock limit */
+	struct itimerval it = { { 0, 0 }, { cpu_s, 0 } };
+	setitimer(ITIMER_PROF, &it, NULL);
+	alarm(wall_s);
+}
+
 int main(int argc, char **argv)
 {
 	static char line[MT_MAXLINE];
@@ -1082,7 +1092,7 @@ int main(int argc, char **argv)
 	setvbuf(stdout, NULL, _IOLBF, 0);
 	__sanitizer_set_death_callback(flush_on_death);
 	signal(SIGPIPE, SIG_IGN);
-	alarm(8);	/* watchdog: a run takes well under a second; a library stuck in a loop is killed instead of hanging the check */
+	verif_watchdog(20, 60);
 	iv_set_fatal_msg_handler(fatal_handler);
 	for (i = 0; i < MT_MAXT; i++)
 		pthread_cond_init(&sched_cv[i], NULL);
